@@ -20,13 +20,17 @@
 #include "rt_common.h"
 
 // ---------------------------------------------------------------- keys
+// a level name may contain the character '/' itself (level names are arbitrary strings); on the wire, where '/' separates the
+// levels, it is written '!'.  The oracle and the model keep '!' (just another character), the real router gets '/'.
+std::string decodeName(std::string n) { for (auto &c : n) if (c == '!') c = '/'; return n; }
+
 RoutingKey buildKey(const std::string &pat) {
     RoutingKeyBuilder b;
     std::istringstream is(pat);
     std::string tok;
     while (std::getline(is, tok, '/')) {
         if (tok.empty()) continue;
-        if (tok[0] == '=') b.level(tok.substr(1));
+        if (tok[0] == '=') b.level(decodeName(tok.substr(1)));
         else if (tok[0] == '~') b.level(std::regex(tok.substr(1)));
         else throw std::runtime_error("bad level");
     }
